@@ -257,10 +257,32 @@ class World:
             if any(k == 0 for k in b.codes) or fa[1] + abs(fz[2] - fa[2] + fb[2]) > 60:
                 return
         x, y = a.x, b.x
-        z = {'add': lambda: x + y, 'sub': lambda: x - y, 'mul': lambda: x * y, 'truediv': lambda: x / y,
-             'floordiv': lambda: x // y, 'mod': lambda: x % y}[name]()
+        how = op.get('how', 'operator')
+        if how == 'operator':
+            z = {'add': lambda: x + y, 'sub': lambda: x - y, 'mul': lambda: x * y, 'truediv': lambda: x / y,
+                 'floordiv': lambda: x // y, 'mod': lambda: x % y}[name]()
+        else:
+            import fxpmath
+            F = C.Fxp()
+            fn = getattr(fxpmath, name)
+            T = F(None, fz[0], fz[1], fz[2])          # a fresh target of the optimal format: the store itself is exact
+            if how == 'function':
+                z = fn(x, y)
+            elif how == 'out':
+                z = fn(x, y, out=T)
+            elif how == 'out_like':
+                z = fn(x, y, out_like=T)
+            elif how == 'numpy-out':
+                npf = {'add': np.add, 'sub': np.subtract, 'mul': np.multiply, 'truediv': np.true_divide,
+                       'floordiv': np.floor_divide, 'mod': np.mod}[name]
+                z = npf(x, y, out=T)
+            else:
+                xc = x.deepcopy()
+                xc.config.op_out = T
+                z = {'add': lambda: xc + y, 'sub': lambda: xc - y, 'mul': lambda: xc * y, 'truediv': lambda: xc / y,
+                     'floordiv': lambda: xc // y, 'mod': lambda: xc % y}[name]()
         if (a.flags[2] or b.flags[2]) and not C.flags(z)[2]:
-            raise Mismatch('arith/%s/inaccuracy-not-propagated' % name, {'a': a.flags, 'b': b.flags, 'z': list(C.flags(z))})
+            raise Mismatch('arith/%s/%s/inaccuracy-not-propagated' % (name, how), {'a': a.flags, 'b': b.flags, 'z': list(C.flags(z))})
         self.adopt(z)
 
     def op_arith_const(self, op):
@@ -288,7 +310,12 @@ class World:
         name = op['name']
         if a.fmt[1] + 4 > 52:
             return
-        z = getattr(np, name)(a.x) if op.get('numpy') else getattr(a.x, name)()
+        if op.get('out') and name in ('sum', 'max', 'min'):
+            F = C.Fxp()
+            T = F(None, a.fmt[0], a.fmt[1] + 4, a.fmt[2])
+            z = getattr(np, name)(a.x, out=T) if op.get('numpy') else getattr(a.x, name)(out=T)
+        else:
+            z = getattr(np, name)(a.x) if op.get('numpy') else getattr(a.x, name)()
         if a.flags[2] and not C.flags(z)[2]:
             raise Mismatch('func/%s/inaccuracy-not-propagated' % name, {'a': a.flags, 'z': list(C.flags(z))})
         self.adopt(z)
@@ -454,10 +481,12 @@ def op_strategies():
         'set_mode': st.fixed_dictionaries({'i': st.integers(0, 7), 'modes': C.st_modes().map(list)}),
         'reset': st.fixed_dictionaries({'i': st.integers(0, 7)}),
         'resize': st.fixed_dictionaries({'i': st.integers(0, 7), 'fmt': fmt.map(list)}),
-        'arith': st.fixed_dictionaries({'i': st.integers(0, 7), 'j': st.integers(0, 7), 'name': st.sampled_from(['add', 'sub', 'mul', 'truediv', 'floordiv', 'mod'])}),
+        'arith': st.fixed_dictionaries({'i': st.integers(0, 7), 'j': st.integers(0, 7), 'name': st.sampled_from(['add', 'sub', 'mul', 'truediv', 'floordiv', 'mod']),
+                                        'how': st.sampled_from(['operator', 'operator', 'function', 'out', 'out_like', 'numpy-out', 'config-out'])}),
         'arith_const': st.fixed_dictionaries({'i': st.integers(0, 7), 'name': st.sampled_from(['add', 'sub', 'mul']), 'c': st.sampled_from([1, 2, -1, 0.5, 3]),
                                               'numpy': st.booleans()}),
-        'func': st.fixed_dictionaries({'i': st.integers(0, 7), 'name': st.sampled_from(['sum', 'cumsum', 'max', 'min']), 'numpy': st.booleans()}),
+        'func': st.fixed_dictionaries({'i': st.integers(0, 7), 'name': st.sampled_from(['sum', 'cumsum', 'max', 'min']), 'numpy': st.booleans(),
+                                       'out': st.booleans()}),
         'derive': st.fixed_dictionaries({'i': st.integers(0, 7), 'like': st.booleans()}),
     }
 
